@@ -119,7 +119,7 @@ theorem NoSig.iterLoop (n nameLen : Nat) (slots : Option String × Option String
     split
     · split
       · exact NoSig.bind (NoSig.newStr _) fun _ => NoSig.iterPass _ _ _ _ _ _
-      · exact NoSig.goPanic
+      · exact NoSig.pure _
     · exact NoSig.goPanic
   · exact NoSig.rtErr _
 
